@@ -273,15 +273,65 @@ fn exhaustive_job(job: usize, jobs: usize) -> Stats {
     st
 }
 
-/// fp(a, t) on table-defined maps over the 16 functions of two variables.
+/// One fp(a, t) call on a table-defined map over the 16 functions of two variables, in an
+/// environment over any symbol type. None = the orbit has no self-loop (fp may legitimately loop).
+fn fp_orbit_case<S: rsbdd::BDDSymbol + std::fmt::Debug>(st: &mut Stats, labels: [S; 2], g: &[usize], start: usize, weak: bool) -> Option<()> {
+    let vars: Vec<(S, u32)> = labels.iter().cloned().enumerate().map(|(i, l)| (l, i as u32)).collect();
+    let env: BDDEnv<S> = BDDEnv::new();
+    let fs: Vec<Rc<rsbdd::bdd::BDD<S>>> = (0..16u64).map(|b| build_in_env(&env, &Tt::from_u64(2, b), &vars)).collect();
+    // reference orbit
+    let mut orbit = vec![start];
+    let mut expected = None;
+    for _ in 0..40 {
+        let cur = *orbit.last().unwrap();
+        if g[cur] == cur {
+            expected = Some((cur, orbit.len()));
+            break;
+        }
+        if orbit.contains(&g[cur]) {
+            break; // cycle without a fixed point: fp would legitimately loop
+        }
+        orbit.push(g[cur]);
+    }
+    let (want_idx, want_calls) = expected?;
+    st.evals += 1;
+    st.bump(if weak { "fp_api_calls_weak_hash_symbols" } else { "fp_api_calls" });
+    let calls = Cell::new(0u64);
+    let case = json!({"kind": "api", "map": g, "start": start, "weak": weak});
+    let sym = if weak { " (constant-hash symbols)" } else { "" };
+    util::budget(1_000_000, 100);
+    let r = guarded(|| {
+        env.fp(Rc::clone(&fs[start]), |r| {
+            calls.set(calls.get() + 1);
+            // the closure calls back into the environment (operations on the iterate)
+            let same = env.or(Rc::clone(&r), env.mk_const(false));
+            let i = fs.iter().position(|f| f.as_ref() == same.as_ref()).expect("iterate is one of the 16 functions");
+            Rc::clone(&fs[g[i]])
+        })
+    });
+    match r {
+        Ok(d) => {
+            if d.as_ref() != fs[want_idx].as_ref() {
+                st.violate("c06.fp-api", "C06:fp:wrong-element".into(), format!("fp{} from #{} under map {:?} returned {} but the first element mapped to itself is #{} = {}", sym, start, g, short(&d), want_idx, short(&fs[want_idx])), case);
+            } else if calls.get() != want_calls as u64 {
+                st.violate("c06.fp-api", "C06:fp:wrong-number-of-applications".into(), format!("fp{} from #{} under map {:?}: transformer applied {} times, orbit index + 1 = {}", sym, start, g, calls.get(), want_calls), case);
+            } else {
+                st.nt.insert(mix(util::hash_str(&format!("{:?}{}", g, weak)), start as u64));
+                st.max("max_orbit_length", want_calls as u64);
+            }
+        }
+        Err(Caught::Budget(_)) => st.violate("c06.fp-api", "C06:fp:does-not-stop-at-self-loop".into(), format!("fp{} from #{} under map {:?} did not stop after {} applications (expected {})", sym, start, g, calls.get(), want_calls), case),
+        Err(c) => st.violate("c06.panic", format!("C06:fp:{}", c.signature()), format!("{:?}", c), case),
+    }
+    Some(())
+}
+
+/// fp(a, t) on table-defined maps over the 16 functions of two variables; every fourth call in an
+/// environment whose symbol type has a constant `Hash` (all same-shape diagrams collide).
 fn api_job(ctx: &Ctx, job: usize, iters: u64) -> Stats {
     let mut st = Stats::new();
     let mut rng = Rng::stream(ctx.seed, "C06.api", job as u64);
-    let labels = [3usize, usize::MAX];
-    let vars = vars_of(&labels);
-    for _ in 0..iters {
-        let env: BDDEnv<usize> = BDDEnv::new();
-        let fs: Vec<D> = (0..16u64).map(|b| build_in_env(&env, &Tt::from_u64(2, b), &vars)).collect();
+    for it in 0..iters {
         // arbitrary (mostly non-monotone) map with a few self-loops
         let mut g: Vec<usize> = (0..16).map(|_| rng.usize(16)).collect();
         for _ in 0..(1 + rng.usize(3)) {
@@ -289,51 +339,13 @@ fn api_job(ctx: &Ctx, job: usize, iters: u64) -> Stats {
             g[i] = i;
         }
         let start = rng.usize(16);
-        // reference orbit
-        let mut orbit = vec![start];
-        let mut expected = None;
-        for _ in 0..40 {
-            let cur = *orbit.last().unwrap();
-            if g[cur] == cur {
-                expected = Some((cur, orbit.len()));
-                break;
-            }
-            if orbit.contains(&g[cur]) {
-                break; // cycle without a fixed point: fp would legitimately loop
-            }
-            orbit.push(g[cur]);
-        }
-        let Some((want_idx, want_calls)) = expected else {
-            st.bump("orbit_without_self_loop(skipped)");
-            continue;
+        let done = if it % 4 == 3 {
+            fp_orbit_case(&mut st, [super::c03::WeakSym(3), super::c03::WeakSym(9)], &g, start, true)
+        } else {
+            fp_orbit_case(&mut st, [3usize, usize::MAX], &g, start, false)
         };
-        st.evals += 1;
-        st.bump("fp_api_calls");
-        let calls = Cell::new(0u64);
-        let case = json!({"kind": "api", "map": g, "start": start});
-        util::budget(1_000_000, 100);
-        let r = guarded(|| {
-            env.fp(Rc::clone(&fs[start]), |r| {
-                calls.set(calls.get() + 1);
-                // the closure calls back into the environment (operations on the iterate)
-                let same = env.or(Rc::clone(&r), env.mk_const(false));
-                let i = fs.iter().position(|f| f.as_ref() == same.as_ref()).expect("iterate is one of the 16 functions");
-                Rc::clone(&fs[g[i]])
-            })
-        });
-        match r {
-            Ok(d) => {
-                if d.as_ref() != fs[want_idx].as_ref() {
-                    st.violate("c06.fp-api", "C06:fp:wrong-element".into(), format!("fp from #{} under map {:?} returned {} but the first element mapped to itself is #{} = {}", start, g, short(&d), want_idx, short(&fs[want_idx])), case);
-                } else if calls.get() != want_calls as u64 {
-                    st.violate("c06.fp-api", "C06:fp:wrong-number-of-applications".into(), format!("fp from #{} under map {:?}: transformer applied {} times, orbit index + 1 = {}", start, g, calls.get(), want_calls), case);
-                } else {
-                    st.nt.insert(mix(util::hash_str(&format!("{:?}", g)), start as u64));
-                    st.max("max_orbit_length", want_calls as u64);
-                }
-            }
-            Err(Caught::Budget(_)) => st.violate("c06.fp-api", "C06:fp:does-not-stop-at-self-loop".into(), format!("fp from #{} under map {:?} did not stop after {} applications (expected {})", start, g, calls.get(), want_calls), case),
-            Err(c) => st.violate("c06.panic", format!("C06:fp:{}", c.signature()), format!("{:?}", c), case),
+        if done.is_none() {
+            st.bump("orbit_without_self_loop(skipped)");
         }
     }
     st
@@ -358,7 +370,7 @@ pub fn run(ctx: &Ctx) -> (Stats, Spec) {
         check_fix_text(&mut st, t, "readme-and-scoping");
     }
     let spec = Spec {
-        rule: "bodies from a polarity-tracking generator (X under and/or/ite branches/quantifiers/at-least counting/left list of >=/even negation; nested and mixed lfp/gfp up to depth 3; inner binders and quantifiers reusing the outer name; aliases mu/nu), every small tree as body, README identities. For each: ALL functions over the other names (<= 3 names: 256 candidates; 4 names: 4096 sampled) are enumerated as competing (pre/post-)fixed points; the generated body's monotonicity is verified on all comparable pairs. API: fp(a, t) with random table-defined maps on the 16 functions of two variables whose orbit ends in a self-loop; the closure counts its applications and calls back into the environment. distinct = text resp. (map, start); non-trivial = X occurs free, T depends on X and T has >= 2 fixed points.".into(),
+        rule: "bodies from a polarity-tracking generator (X under and/or/ite branches/quantifiers/at-least counting/left list of >=/even negation; nested and mixed lfp/gfp up to depth 3; inner binders and quantifiers reusing the outer name; aliases mu/nu), every small tree as body, README identities. For each: ALL functions over the other names (<= 3 names: 256 candidates; 4 names: 4096 sampled) are enumerated as competing (pre/post-)fixed points; the generated body's monotonicity is verified on all comparable pairs. API: fp(a, t) with random table-defined maps on the 16 functions of two variables whose orbit ends in a self-loop; the closure counts its applications and calls back into the environment; a quarter of the calls run in an environment whose symbol type has a constant Hash (every pair of same-shape diagrams collides), so that `mapped to itself` cannot be confused with `same hash`. distinct = text resp. (map, start); non-trivial = X occurs free, T depends on X and T has >= 2 fixed points.".into(),
         assumptions: vec![
             "non-monotone or non-convergent bodies are never handed to the engine (it may legitimately loop; the README says so)".into(),
             "'evaluation terminates' is decided as: total fixed-point iterations <= 4 x the reference's count + 64 (a monotone chain cannot be longer than the lattice height)".into(),
@@ -370,6 +382,7 @@ pub fn run(ctx: &Ctx) -> (Stats, Spec) {
             ("quantifier_shadows_fixed_point_name".into(), 20, "shadowing by a quantifier never exercised".into()),
             ("inner_binder_reuses_outer_name".into(), 20, "shadowing by an inner fixed point never exercised".into()),
             ("fp_api_calls".into(), 1_000, "fp API never exercised".into()),
+            ("fp_api_calls_weak_hash_symbols".into(), 300, "fp over colliding hashes never exercised".into()),
         ],
     };
     (st, spec)
@@ -383,35 +396,10 @@ pub fn replay(_ctx: &Ctx, _monitor: &str, case: &Value, st: &mut Stats) {
         if g.len() != 16 || start >= 16 {
             return;
         }
-        let labels = [3usize, usize::MAX];
-        let vars = vars_of(&labels);
-        let env: BDDEnv<usize> = BDDEnv::new();
-        let fs: Vec<D> = (0..16u64).map(|b| build_in_env(&env, &Tt::from_u64(2, b), &vars)).collect();
-        let mut cur = start;
-        let mut n = 1;
-        while g[cur] != cur && n < 40 {
-            cur = g[cur];
-            n += 1;
-        }
-        if g[cur] != cur {
-            return;
-        }
-        let calls = Cell::new(0u64);
-        util::budget(1_000_000, 100);
-        st.evals += 1;
-        let r = guarded(|| {
-            env.fp(Rc::clone(&fs[start]), |r| {
-                calls.set(calls.get() + 1);
-                let i = fs.iter().position(|f| f.as_ref() == r.as_ref()).expect("iterate known");
-                Rc::clone(&fs[g[i]])
-            })
-        });
-        match r {
-            Ok(d) if d.as_ref() == fs[cur].as_ref() && calls.get() == n as u64 => {}
-            Ok(d) if d.as_ref() != fs[cur].as_ref() => st.violate("c06.fp-api", "C06:fp:wrong-element".into(), format!("returned {}", short(&d)), case.clone()),
-            Ok(_) => st.violate("c06.fp-api", "C06:fp:wrong-number-of-applications".into(), format!("{} applications, expected {}", calls.get(), n), case.clone()),
-            Err(Caught::Budget(_)) => st.violate("c06.fp-api", "C06:fp:does-not-stop-at-self-loop".into(), "budget".into(), case.clone()),
-            Err(c) => st.violate("c06.panic", format!("C06:fp:{}", c.signature()), format!("{:?}", c), case.clone()),
+        if case.get("weak").and_then(|w| w.as_bool()).unwrap_or(false) {
+            fp_orbit_case(st, [super::c03::WeakSym(3), super::c03::WeakSym(9)], &g, start, true);
+        } else {
+            fp_orbit_case(st, [3usize, usize::MAX], &g, start, false);
         }
         return;
     }
